@@ -319,4 +319,23 @@ example :
     refineResult (α := ℚ) ⟨2, 0⟩ [] [some (0, 16), none] 1 ⟨[-3/10, 20], 2, some 1, []⟩ [-3/10, 20, 2, 1] false
       = [157/10, 20, 2, 1] := by decide +kernel
 
+/-! ### the fitted region reaches two interface widths beyond the candidate -/
+
+/-- **The number of dilation steps is `⌊2w⌋ + 1`**: at least one cell, more than `2w` cells and at most
+`2w + 1` — counted in cells, whatever the grid spacing is. -/
+theorem fitIterations_spec (w : ℚ) (hw : 0 ≤ w) :
+    1 ≤ fitIterations w ∧ 2 * w < (fitIterations w : ℚ) ∧ (fitIterations w : ℚ) ≤ 2 * w + 1 := by
+  unfold fitIterations
+  have h0 : (0 : ℤ) ≤ (2 * w).floor := Rat.le_floor_iff.mpr (by push_cast; linarith)
+  have h1 : (((2 * w).floor : ℤ) : ℚ) ≤ 2 * w := Rat.floor_le _
+  have h2 : 2 * w < (((2 * w).floor + 1 : ℤ) : ℚ) := Rat.lt_floor_add_one _
+  have hc : (((2 * w).floor.toNat : ℕ) : ℚ) = (((2 * w).floor : ℤ) : ℚ) := by
+    have : (((2 * w).floor.toNat : ℕ) : ℤ) = (2 * w).floor := Int.toNat_of_nonneg h0
+    exact_mod_cast this
+  refine ⟨by omega, ?_, ?_⟩
+  · push_cast at h2 ⊢; rw [hc]; linarith
+  · push_cast; rw [hc]; linarith
+
+example : fitIterations 0 = 1 ∧ fitIterations (3/4) = 2 ∧ fitIterations 1 = 3 ∧ fitIterations (39/100) = 1 := by decide +kernel
+
 end DV.C04
